@@ -11,7 +11,7 @@ func verifHarness_C09(n, mode, entry int) {
 }
 
 func verifC09(x string, entry int) {
-	nodes, isList, err := verifParse(entry, x)
+	nodes, _, err, p := verifParseP(entry, x)
 	bad, badNodes := 0, 0
 	for _, root := range nodes {
 		for _, n := range verifAllNodes(root) {
@@ -28,24 +28,12 @@ func verifC09(x string, entry int) {
 		if bad > 0 {
 			verifFail("C09/bad-node-without-error", "")
 		}
-		toks, ok := verifLexAll(x)
-		if !ok {
+		if _, ok := verifLexAll(x); !ok {
 			verifFail("C09/nil-error-but-lexer-rejects", "")
 		}
-		for _, t := range toks {
-			if t.Kind == token.TokenEOF {
-				continue
-			}
-			inside := false
-			for _, root := range nodes {
-				if !verifIsNil(root) && root.Pos() <= t.Pos && t.End <= root.End() {
-					inside = true
-				}
-			}
-			// a trailing comma (select list, CREATE TABLE ...) is consumed but is not part of any node
-			if !inside && !(isList && t.Kind == ";") && t.Kind != "," {
-				verifFail("C09/nil-error-but-token-not-consumed", verifEntryNames[entry])
-			}
+		// the whole input up to end-of-file was consumed
+		if p.Token.Kind != token.TokenEOF || int(p.Token.Pos) != len(x) {
+			verifFail("C09/nil-error-but-input-remains", verifEntryNames[entry])
 		}
 		verifReach("C09/clean")
 		return
